@@ -33,7 +33,8 @@ PROBES = ["sel_empty", "sel_single", "sel_full_filtered", "sel_c-1", "sel_c", "s
           "hier_child_export", "hier_depth2_export", "child_refreshed_before_export", "basin_backed_export",
           "basin_feature_exported", "tdms_export", "lazy_stack_export", "reexport_of_product", "same_second_export",
           "tables_with_attrs", "user_section", "tsv_export", "tsv_nan_or_inf", "override_existing", "suffix_added",
-          "unapplied_filter_edit", "unfiltered_with_active_filter", "polygon_filter", "logs_carried", "tables_carried"]
+          "unapplied_filter_edit", "unfiltered_with_active_filter", "polygon_filter", "logs_carried", "tables_carried",
+          "repeated_export_same_object"]
 COMPONENTS = {
     "real": ["dclab export.hdf5 / export.tsv / store_filtered_feature / yield_filtered_array_stacks", "dclab RTDCWriter",
              "RTDC_Dict, RTDC_HDF5 (+ file basins), RTDC_Hierarchy, RTDC_TDMS readers", "dclab Filter / PolygonFilter",
@@ -797,10 +798,17 @@ class World:
                 ctx.probe("suffix_added")
             override = bool(op["override"])
         prefix = op["prefix"]
-        snap = self.snapshot_meta(ds)
-        with warnings.catch_warnings():
-            warnings.simplefilter("ignore")
-            src_id = ds.get_measurement_identifier()
+        # The source's metadata are what the dataset object held BEFORE its first export (exporting must not
+        # change the source): the snapshot is taken once per dataset object, not from the live configuration.
+        if "meta_snap" not in e:
+            e["meta_snap"] = self.snapshot_meta(ds)
+            with warnings.catch_warnings():
+                warnings.simplefilter("ignore")
+                e["src_id"] = ds.get_measurement_identifier()
+        else:
+            ctx.probe("repeated_export_same_object")
+        snap = e["meta_snap"]
+        src_id = e["src_id"]
         import dclab.rtdc_dataset.export as exmod
         export_log = exmod.time.strftime("dclab-export_%Y-%m-%d_%H.%M.%S")
         second = int(ctx.clock.now)
